@@ -91,12 +91,43 @@ Proof.
   induction body as [|x r IH]; intro m; [reflexivity|]. cbn [exec_cs]. apply cseq_ext. exact IH.
 Qed.
 
-Lemma exec_cs_body : forall gv e r m, c_obj m = r_src r -> c_obj m = c_enum m ->
-  exec_cs gv e (map CAtom (cs_body r)) m =
-  (true, fst (fire r (c_obj m) e), mkCs (snd (fire r (c_obj m) e)) (snd (fire r (c_obj m) e)) (c_n m)).
+(* ---- the helper methods, as their source-derived IR (Gen/CsTmpl.v) has them NOW: these three equations are what a
+   change of Enter<StateT>() / Exit<StateT>() / Reset() / the constructor breaks *)
+Lemma cs_exit_ok : forall e t o en n, String.eqb o "" = false ->
+  cs_exit e t (mkCs o en n true false) = (false, [CExit o e], mkCs o en n true false).
 Proof.
-  intros gv e r [o en n] Ho He. cbn [c_obj c_enum c_n] in *. subst. unfold cs_body, fire, act_cbs.
-  destruct (opt (r_next r)); destruct (opt (r_act r)); reflexivity.
+  intros e t o en n H. unfold cs_exit, cs_exit_ir. cbn [exec_h exec_h1]. unfold hook. cbn [c_ctl c_obj andb]. rewrite H. reflexivity.
+Qed.
+
+Lemma cs_enter_ok : forall e t o en n, String.eqb t "" = false ->
+  cs_enter e t (mkCs o en n true false) = (false, [CEntry t e], mkCs t en n true false).
+Proof.
+  intros e t o en n H. unfold cs_enter, cs_enter_ir.
+  cbn [exec_h exec_h1 cseq]. unfold hook. cbn [c_ctl c_obj c_enum c_n c_err andb]. rewrite H. reflexivity.
+Qed.
+
+Lemma cs_ctor_ok : forall e first, String.eqb first "" = false ->
+  cs_ctor e first (mkCs "" "" 0 false false) = (false, [CEntry first e], mkCs first first 0 true false).
+Proof.
+  intros e first H. unfold cs_ctor, cs_ctor_ir.
+  cbn [exec_h exec_h1 c_ctl c_obj c_enum c_n c_err cseq as_call_cs].
+  unfold cs_reset, cs_reset_ir. cbn [exec_h exec_h1 c_ctl c_obj c_enum c_n c_err cseq as_call_cs].
+  rewrite cs_enter_ok by assumption. reflexivity.
+Qed.
+
+Lemma is_none_false_neq : forall x, is_none x = false -> String.eqb x "" = false.
+Proof. intros x H. unfold is_none in H. apply orb_false_iff in H as [H _]. exact H. Qed.
+
+Lemma exec_cs_body : forall gv e r s n, r_src r = s -> String.eqb s "" = false ->
+  exec_cs gv e (map CAtom (cs_body r)) (mkCs s s n true false) =
+  (true, fst (fire r s e), mkCs (snd (fire r s e)) (snd (fire r s e)) n true false).
+Proof.
+  intros gv e r s n Hs Hne. subst s. unfold cs_body, fire, act_cbs.
+  destruct (opt (r_next r)) as [nx|] eqn:En; destruct (opt (r_act r)) as [a|];
+    cbn [map app exec_cs exec_cstmt exec_ctok cseq fst snd];
+    try (apply opt_some in En as [-> En]; apply is_none_false_neq in En);
+    rewrite ?cs_exit_ok, ?cs_enter_ok by assumption; cbn [cseq app c_obj c_enum c_n c_ctl c_err];
+    rewrite ?cs_enter_ok by assumption; cbn [cseq app c_obj c_enum c_n c_ctl c_err]; reflexivity.
 Qed.
 
 (* guard evaluations in table order up to the first row that fires (as in the Python proof) *)
@@ -125,36 +156,38 @@ Proof.
   - destruct (fire r cur e). reflexivity.
 Qed.
 
-Lemma exec_cs_rows : forall gv e rows s n, (forall r, In r rows -> r_src r = s) ->
-  exec_cs gv e (map cs_row_stmt rows) (mkCs s s n) =
+Lemma exec_cs_rows : forall gv e rows s n, (forall r, In r rows -> r_src r = s) -> String.eqb s "" = false ->
+  exec_cs gv e (map cs_row_stmt rows) (mkCs s s n true false) =
   let '(t, n', o) := scan gv n e rows in
   match o with
-  | Some r => (true, (t ++ fst (fire r s e))%list, mkCs (snd (fire r s e)) (snd (fire r s e)) n')
-  | None => (false, t, mkCs s s n')
+  | Some r => (true, (t ++ fst (fire r s e))%list, mkCs (snd (fire r s e)) (snd (fire r s e)) n' true false)
+  | None => (false, t, mkCs s s n' true false)
   end.
 Proof.
-  induction rows as [|r rows IH]; intros s n Hs; [reflexivity|].
+  induction rows as [|r rows IH]; intros s n Hs Hne; [reflexivity|].
   assert (r_src r = s) as Hr by (apply Hs; left; reflexivity).
   assert (forall r0, In r0 rows -> r_src r0 = s) as Hs' by (intros; apply Hs; right; assumption).
-  cbn [map exec_cs scan]. unfold cs_row_stmt at 1. destruct (opt (r_guard r)) as [g|]; cbn [exec_cstmt c_n c_obj c_enum].
+  cbn [map exec_cs scan]. unfold cs_row_stmt at 1.
+  destruct (opt (r_guard r)) as [g|]; cbn [exec_cstmt c_n c_obj c_enum c_ctl c_err].
   - destruct (gv n g).
-    + cbn [cseq]. rewrite exec_go, exec_cs_body by (cbn; auto). cbn [cseq app c_obj c_n]. reflexivity.
+    + cbn [cseq]. rewrite exec_go, exec_cs_body by assumption. cbn [cseq app]. reflexivity.
     + cbn [cseq]. rewrite IH by assumption. destruct (scan gv (S n) e rows) as [[t n'] o]. destruct o; reflexivity.
-  - rewrite exec_go, exec_cs_body by (cbn; auto). cbn [cseq app c_obj c_n]. reflexivity.
+  - rewrite exec_go, exec_cs_body by assumption. cbn [cseq app]. reflexivity.
 Qed.
 
 Definition cs_out (r : cres) : list cb * csst := (snd (fst r), snd r).
 
-Theorem cs_handler_sem : forall t s e gv n,
+Theorem cs_handler_sem : forall t s e gv n, String.eqb s "" = false ->
   exists prog, parse_braces (cs_handler t s e) = Some prog /\
-    cs_out (exec_cs gv e prog (mkCs s s n)) =
-    let '(tr, c, n') := step_rows_quiet gv n s e (rows_for t s e) in (tr, mkCs c c n').
+    cs_out (exec_cs gv e prog (mkCs s s n true false)) =
+    let '(tr, c, n') := step_rows_quiet gv n s e (rows_for t s e) in (tr, mkCs c c n' true false).
 Proof.
-  intros t s e gv n. exists (map cs_row_stmt (trans_of t s e)). split; [apply parse_cs_handler|].
+  intros t s e gv n Hne. exists (map cs_row_stmt (trans_of t s e)). split; [apply parse_cs_handler|].
   rewrite exec_cs_rows, step_quiet_scan.
   - unfold trans_of. destruct (scan gv n e (rows_for t s e)) as [[tr n'] o]. destruct o; reflexivity.
   - intros r Hr. unfold trans_of, rows_for in Hr. apply filter_In in Hr as [_ Hr].
     apply andb_true_iff in Hr as [Hr _]. apply String.eqb_eq. assumption.
+  - assumption.
 Qed.
 
 (* a pair the table does not list has no handler (the base class's empty virtual runs) and no rows *)
@@ -193,4 +226,56 @@ Proof.
   - unfold src_states in H. apply (proj1 (In_dedup _ _)) in H. unfold present in H. apply filter_In in H as [H Hn].
     apply in_map_iff in H as (r & <- & Hr). apply src_in_states; [assumption|]. apply negb_true_iff. assumption.
   - apply filter_In in H as [H _]. assumption.
+Qed.
+
+(* ------------------------------------------------------------------ the whole machine *)
+Lemma fire_state_nonempty : forall r cur e, String.eqb cur "" = false -> String.eqb (snd (fire r cur e)) "" = false.
+Proof.
+  intros r cur e H. unfold fire. destruct (opt (r_next r)) as [n|] eqn:E; cbn [snd]; [|assumption].
+  apply opt_some in E as [-> E]. apply is_none_false_neq. assumption.
+Qed.
+
+Lemma step_quiet_state_nonempty : forall gv e cur rows n, String.eqb cur "" = false ->
+  String.eqb (snd (fst (step_rows_quiet gv n cur e rows))) "" = false.
+Proof.
+  induction rows as [|r rows IH]; intros n H; cbn [step_rows_quiet]; [assumption|].
+  destruct (opt (r_guard r)).
+  - destruct (gv n s); [cbn [fst snd]; apply fire_state_nonempty; assumption|].
+    specialize (IH (S n) H). destruct (step_rows_quiet gv (S n) cur e rows) as [[t c] n']. exact IH.
+  - cbn [fst]. apply fire_state_nonempty. assumption.
+Qed.
+
+Lemma cs_trigger_step : forall t gv e s n, forallb row_ok t = true -> String.eqb s "" = false ->
+  cs_trigger t gv e (mkCs s s n true false) =
+  let '(tr, c, n') := step_rows_quiet gv n s e (rows_for t s e) in (false, tr, mkCs c c n' true false).
+Proof.
+  intros t gv e s n Hwf Hne. unfold cs_trigger. change cs_trigger_dispatches_synchronously with true.
+  cbn [andb c_obj]. destruct (mem e (cs_handlers t s)) eqn:M.
+  - destruct (cs_handler_sem t s e gv n Hne) as (prog & Hp & Hx). rewrite Hp.
+    destruct (step_rows_quiet gv n s e (rows_for t s e)) as [[tr c] n'].
+    destruct (exec_cs gv e prog (mkCs s s n true false)) as [[b tr'] m']. unfold cs_out in Hx. cbn [fst snd] in Hx.
+    injection Hx as -> ->. reflexivity.
+  - rewrite (cs_unlisted t s e Hwf); [reflexivity|]. intro H. apply mem_In in H. congruence.
+Qed.
+
+Lemma cs_run_from_interp : forall t gv evs s n, forallb row_ok t = true -> String.eqb s "" = false ->
+  cs_run_from t gv (mkCs s s n true false) evs = Some (interp_from_quiet t gv n s evs).
+Proof.
+  induction evs as [|e evs IH]; intros s n Hwf Hne; [reflexivity|].
+  cbn [cs_run_from interp_from_quiet]. rewrite cs_trigger_step by assumption.
+  pose proof (step_quiet_state_nonempty gv e s (rows_for t s e) n Hne) as Hc.
+  destruct (step_rows_quiet gv n s e (rows_for t s e)) as [[tr c] n']. cbn [fst snd] in Hc.
+  cbn [c_err c_enum]. rewrite IH by assumption. reflexivity.
+Qed.
+
+Theorem cs_sem : forall t, wf_table t = true -> forall evs gv, run_cs t evs gv = Some (table_interp_quiet t evs gv).
+Proof.
+  intros t Hwf evs gv. unfold wf_table in Hwf. do 6 (apply andb_true_iff in Hwf as [Hwf _]).
+  apply andb_true_iff in Hwf as [Hnil Hrows].
+  destruct t as [|r t]; [discriminate|].
+  assert (String.eqb (r_src r) "" = false) as Hne.
+  { pose proof Hrows as H4. cbn [forallb] in H4. apply andb_true_iff in H4 as [H4 _]. apply is_none_false_neq. apply (row_ok_fields r H4). }
+  unfold run_cs, table_interp_quiet. cbn [getfirststate first_state].
+  rewrite cs_ctor_ok by assumption. cbn [c_err c_enum].
+  rewrite cs_run_from_interp by assumption. reflexivity.
 Qed.
